@@ -12,8 +12,8 @@ spec -> code, two specifications:
                   FASTA / PHYLIP / PAML / GDE writers and transcriptions of every parser.  TLC
                   enumerates small collections (names over character classes, sequences with
                   lengths around the block boundaries), proves the parser models lossless on the
-                  clean domain for every text the writer relation allows, characterises where
-                  the bytes-splitting FASTA parser is not, and emits each case with the oracle,
+                  clean domain (names holding '>' included) for every text the writer relation
+                  allows, and emits each case with the oracle,
                   its structural class and the model predictions; the harness builds the real
                   collection (ArrayAlignment, Alignment, SequenceCollection; DNA / RNA / protein),
                   writes it (plain, .gz, .bz2, explicit format=), loads it back, and calls every
@@ -157,8 +157,9 @@ def check_formats(run: Run, scratch, stats):
             raise RuntimeError(f"vacuous: no case of class {need}")
     if not any(len(s) > 2 * r["from"]["block"] for r in recs for s in r["from"]["seqs"]):
         raise RuntimeError("vacuous: no sequence longer than two blocks")
-    if not any(isinstance(r["to"]["model"], dict) and not r["to"]["model"].get("bytes", {"same": True})["same"] and r["to"]["cls"] == "has-gt" for r in recs):
-        raise RuntimeError("vacuous: the bytes-parser model never differs from the oracle on a has-gt case")
+    # names holding a '>' are read back verbatim by every FASTA parser model (since the repair of iter_fasta_records)
+    if not any(isinstance(r["to"]["model"], dict) and r["to"]["model"].get("bytes", {"same": False})["same"] and r["to"]["cls"] == "has-gt" for r in recs):
+        raise RuntimeError("vacuous: no has-gt case on which the bytes-parser model equals the oracle")
     if not any(len("".join(n)) > 9 for r in recs if r["from"]["fmt"] == "phylip" for n in r["from"]["names"]):
         raise RuntimeError("vacuous: no PHYLIP name longer than 9 characters")
     return len(jobs), tot.get("loads", 0) + tot.get("parses", 0)
